@@ -106,7 +106,7 @@ class Run:
             d.mkdir(exist_ok=True)
             for v in fresh:
                 seen_keys[v.key] = seen_keys.get(v.key, 0) + 1
-                if seen_keys[v.key] > 3 or len(seen_keys) > 40:
+                if seen_keys[v.key] > 3 or len(seen_keys) > 600:
                     continue  # keep output bounded: first 3 cases of each distinct key
                 name = hashlib.blake2b((v.key + json.dumps(v.detail, sort_keys=True, default=str)).encode(),
                                        digest_size=6).hexdigest()
@@ -123,7 +123,7 @@ class Run:
             "evaluations": self.evaluations, "distinct_nontrivial": len(self.distinct),
             "rule": rule, "samples": self.samples[:6] or [{"note": "no sample recorded"}],
             "known_findings_hit": hits,
-            "violation_keys": {k: n for k, n in sorted(seen_keys.items())[:60]},
+            "violation_keys": {k: n for k, n in sorted(seen_keys.items())[:600]},
         })
         if extra:
             cov.update(extra)
